@@ -44,15 +44,22 @@ def run(ctx):
     runs = ctx.pick([(6, 9), (8, 4), (12, 4)], [(6, 9), (8, 9), (10, 4), (12, 5)])
     for w, maxlen in runs:
         ctx.tlc_mc("data", "IntCodecMC", "IntCodecMC.cfg", consts={"W": w, "MAXLEN": maxlen}, workers=4, timeout=1500)
+    # (a') write side: scratch-buffer pool x bufio alignment x interfering call; the order of the code
+    # holds, the reordered Put must be refuted (otherwise the model would not bind anything)
+    ctx.tlc_mc("data", "HexWrite", "HexWrite.cfg", workers=2, timeout=600)
+    bad = ctx.tlc("data", "HexWrite", "HexWriteBad.cfg", workers=2, timeout=600, allow_codes=(0, 12))
+    if bad["code"] != 12 or "WireExact is violated" not in bad["out"]:
+        raise Infra("HexWriteBad.cfg: TLC did not refute the early Put (exit %d)" % bad["code"])
+    ctx.extra["hexwrite_model"] = "Put-after-Write holds (WireExact, NoSharing); Put-before-Write refuted by TLC"
     # (c) boundary vectors at the real width
     path, _ = ctx.tlc_gen("data", "IntCodecGen", consts={"VECW": ctx.pick("{64}", "{32, 64}"), "DELTA": ctx.pick(9, 20)},
                           workers=4, timeout=900)
     if not path:
         raise Infra("IntCodecGen wrote no vectors")
-    # one compilation, both tests (vectors + round trips)
-    recs = ctx.go_test(".", ["c30_"], "^TestVerifC30(Vectors|RoundTrip)$", infile=path, timeout=1200)
-    if sum(1 for r in recs if r.get("t") == "done") != 2:
-        raise Infra("C30 harness: expected both tests to complete")
+    # one compilation, three tests (vectors incl. write alignment, round trips, chunked alignment)
+    recs = ctx.go_test(".", ["c30_"], "^TestVerifC30(Vectors|RoundTrip|ChunkedAlignment)$", infile=path, timeout=1200)
+    if sum(1 for r in recs if r.get("t") == "done") != 3:
+        raise Infra("C30 harness: expected all three tests to complete")
     ctx.absorb(recs)
     # (b) optional
     ctx.extra["apalache_guard_lemma"] = _apalache(ctx)
